@@ -5,6 +5,10 @@ HERE = os.path.dirname(os.path.dirname(os.path.abspath(__file__)))
 PY = '/venv/bin/python'
 
 CHECKS = {
+ 'C15': dict(sec='2/C15', cat='exploration',
+   text='icontract contracts installed on the real HMF.astep/gstep/astepnn/gstepnn/normbase observe every factor update the real solve() performs (normal-equation residual per object/pixel, objective non-increase, unit rms, non-negativity, bitwise seed reproducibility, caller arrays untouched); computechi2 attributes are compared with a long-double QR reference, pcomp with an explicitly summed correlation/covariance matrix, pca_solve coefficients through a relative normal-equation residual on the returned eigenspectra. Contract evaluation counters are required > 0. A statement about the executions observed (rank-K+noise data, K <= 5, sizes <= 60x200, cond <= 1e6).',
+   note='Trusts numpy long double, numpy.linalg.eigvalsh/svd used by the oracle, icontract 2.7.3 evaluating every installed condition, and the two monotonicity arguments stated in the evidence assumptions.',
+   tech='runtime monitoring: icontract contracts on live HMF updates + reference-model oracles (long-double QR, explicit covariance) + seed-replay determinism'),
  'C20': dict(sec='2/C20', cat='fault_enumeration',
    text='Source-free failpoints: a clean run records every LINE event in the entry points\' own code objects (window_score; template_input, its body, template_metadata) and every PY_START of a directly called function; the run is then repeated with an exception raised from the sys.monitoring callback at the k-th line and at the k-th collaborator call (all k in the thorough tier, a stride in the quick tier) for every initial set/unset state of the touched variables, plus natural failures; after every run the full os.environ must equal the snapshot taken before and the os.putenv/os.unsetenv audit log may only name the touched variables. Complete over the recorded execution paths, not over all paths.',
    note='Trusts sys.monitoring exception injection and the audit hook; sdss_score is a stub collaborator; template_input runs on a synthetic survey tree; BaseException faults, faults inside the restoring statement itself and keyword-only lines (try:/else:/finally:, which execute nothing) are excluded.',
